@@ -32,9 +32,22 @@ def c4(ctx):
     timing.bisect_rule(ctx, "hittable", "_tagged_beats")
 
 
+def sweep(ctx):
+    """thorough: every construction of a note record and every enum comparison in the package is a judged site or recorded."""
+    records.rebuild_census(ctx, {("simfile.notes:NoteData._iter_measure", "simfile.notes.Note"): 1, ("simfile.notes.group:group_notes.attach_tail", "simfile.notes.group.NoteWithTail"): 1,
+                                 ("simfile.notes.group:ungroup_notes", "simfile.notes.Note"): 2, ("simfile.notes.timed:time_notes", "simfile.notes.Note"): 1,
+                                 ("simfile.notes.timed:time_notes", "simfile.notes.timed.TimedNote"): 2})
+    records.enum_census(ctx, {("simfile.notes.group:group_notes.join_head_to_tail", "orphaned_tail"), ("simfile.notes.group:group_notes.join_head_to_tail", "orphaned_head"),
+                                ("simfile.notes.group:group_notes.add_row", "same_beat_notes"), ("simfile.notes.group:ungroup_notes.check_orphan", "orphaned_notes"),
+                                ("simfile.notes.timed:time_notes", "unhittable_notes"), ("simfile.convert:_should_copy_property", "behavior")})
+
+
+sweep.thorough_only = True
+
 CLAUSES = [
     ("C13.1", "the fake keeps everything but the type (R-REBUILD)", c1),
     ("C13.2", "dispatch on unhittable_notes (R-ENUM)", c2),
     ("C13.3-5", "only taps become fakes; same object otherwise; order preserved", c3),
     ("C13.4", "hittable looks at the whole beat; exception set", c4),
+    ("C13.sweep", "package-wide census of record constructions and enum dispatches (thorough)", sweep),
 ]
